@@ -78,6 +78,26 @@ def checkSource(source, components, maxindex):
     return source
 
 
+def parseFloatArray(text):
+    """Parse whitespace separated floats into a float32 array.
+
+    Missing or blank text gives an empty array, anything that is not a
+    number is rejected.
+
+    :param str text:
+      Whitespace separated list of floats, or None
+
+    :rtype: numpy.array
+
+    """
+    if text is None or text.isspace() or len(text) == 0:
+        return numpy.array([], dtype=numpy.float32)
+    try:
+        return numpy.fromstring(text, dtype=numpy.float32, sep=' ')
+    except ValueError:
+        raise DaeMalformedError('Corrupted float values "%s..."' % text.strip()[:40])
+
+
 def parseUIntArray(text):
     """Parse the text of an index list (``<p>``, ``<vcount>``) into an int32 array.
 
@@ -90,7 +110,10 @@ def parseUIntArray(text):
     :rtype: numpy.array
 
     """
-    values = numpy.fromstring(text, dtype=numpy.int64, sep=' ')
+    try:
+        values = numpy.fromstring(text, dtype=numpy.int64, sep=' ')
+    except ValueError:
+        raise DaeMalformedError('Corrupted index values "%s..."' % text.strip()[:40])
     if values.size > 0 and (values.min() < 0 or values.max() > numpy.iinfo(numpy.int32).max):
         raise DaeMalformedError('Index value out of range in "%s..."' % text.strip()[:40])
     return values.astype(numpy.int32)
